@@ -7,8 +7,9 @@ Tie:
       distance_is_cost_of_returned_flux, fault_flags_nonconverged, fault_returns_last_valid_iterate) and the
       algebra of the mass balance (lambda_zero, mass_balance_of_solution, newton_preserves_balance,
       affine/anderson_preserves_balance, pressure pinned) over an abstract divergence with 1^T D = 0.
-  C   fault-injection correspondence: the real solver is run with `linear_solve` (failure before the update) or
-      the Anderson object (failure after the update) of the live solver object wrapped to raise at pass j;
+  C   fault-injection correspondence: the real solver is run with one attribute of the live solver object (jacobian,
+      _update_regularization, linear_solve, setup_*_solver, _shrink, anderson, l1_dissipation, _analyze_timings) or a
+      tolerance object used by the stopping criteria wrapped to raise at pass j;
       (converged, number_iterations, distance == cost of the returned flux, which iterate is returned) are
       compared with the loop model's prediction for the reconstructed event sequence.
   O   oracle on every run: ||D u - f||_inf <= tol, distance == l1_dissipation(returned flux), aux outputs
@@ -21,8 +22,11 @@ import inspect
 import textwrap
 import warnings
 
+from fractions import Fraction
+
 import numpy as np
 
+from ..lib.core import fmt
 from ..lib.impl import Raised, call
 
 LEVEL = "proof"
@@ -43,7 +47,13 @@ CLAIM = dict(
     "assembly, regularisation update, inner linear solve, solver setup on first use, shrink, Anderson call, l1_dissipation, timing "
     "bookkeeping after the distance update, evaluation of the stopping criteria) by wrapping attributes of the live solver object / "
     "a raising tolerance object (no source hook) against the model's prediction, and a per-run oracle (mass balance to linear-solver "
-    "precision, distance == l1_dissipation(returned flux), aux outputs recomputed from the captured flat solution, honest status).",
+    "precision, distance == l1_dissipation(returned flux), aux outputs recomputed from the captured flat solution, honest status). "
+    "Auxiliary outputs: WAux.callOut models the output assembly of __call__ on the finite-volume model of C05/C06 (face_to_cell at the "
+    "cell centre, cell weighting, order-F pressure reshape, transport density, distance); aux_from_solution / "
+    "aux_flux_outputs_from_flux_dofs / aux_pressure_reshape / aux_distance_is_integral_of_density prove that they are functions of "
+    "the returned flat solution only (flux-type outputs of the flux dofs, pressure of the pressure dofs, pinned cell at decF k); tied "
+    "by a correspondence in which _solve of a live solver is stubbed with a dyadic flat solution: cell flux, weighted flux and "
+    "pressure equal the model exactly, the transport density equals sum_q w_q sqrt(model's rational squared norm) to 64 eps.",
     note="1^T D = 0 for the concrete FV divergence is property C06/C07 (here a hypothesis and, per run, a measured fact); linear-solver "
     "accuracy and the Euclidean norm in the cost are evaluated in float; after a fault in the bookkeeping of a pass the "
     "convergence_history keeps the entry of the failed pass (not judged).",
@@ -661,6 +671,93 @@ def loop_model_selfcheck(ctx, codes):
     ctx.correspond("loop-model (generated bodies, fault at every statement) vs independent scan", [" ".join(l.split()) for l in lines], expect)
 
 
+def aux_correspondence(ctx, d):
+    """`__call__` output assembly vs the model `WAux.callOut`: `_solve` of a live solver is replaced by a stub returning a
+    chosen dyadic flat solution; cell flux, weighted flux and pressure must equal the model exactly, the transport density the
+    model's per-quadrature-point squared norms (sqrt and sum in float), the distance the volume-weighted sum of the density."""
+    W = d.measure.wasserstein
+    shapes = [(3,), (1,), (2, 3), (3, 1), (1, 4), (2, 2, 2), (1, 3, 2), (4, 3)] + ([(5,), (3, 3), (2, 1, 3), (3, 2, 2), (1, 1, 2)] if ctx.big else [])
+    l1s = ["RAVIART_THOMAS", "CONSTANT_SUBCELL_PROJECTION", "CONSTANT_CELL_PROJECTION"]
+    lines, cases = [], []
+    for n, shape in enumerate(shapes):
+        for t in range(ctx.pick(2, 4)):
+            dim = len(shape)
+            l1 = l1s[(n + t) % 3]
+            weighted = (n + t) % 2 == 1
+            cfg = Config(shape=list(shape), voxel=[2.0 ** ctx.rng.randint(-2, 1) for _ in range(dim)], masses="dense", method=["newton", "bregman"][t % 2],
+                         l1=l1, mobility="CELL_BASED", formulation="pressure", solver="direct", aa=0, weighted=False, mseed=ctx.rng.randint(0, 10 ** 6),
+                         num_iter=1, tol=1.0, L=1.0)
+            built = call(build, d, cfg)
+            if isinstance(built, Raised):
+                continue
+            w, i1, i2, opts = built
+            if weighted:
+                wimg = np.array([2.0 ** ctx.rng.randint(-1, 1) for _ in range(int(np.prod(shape)))]).reshape(shape)
+                w.weight = d.Image(wimg, space_dim=dim, dimensions=[s_ * v for s_, v in zip(shape, cfg.voxel)], scalar=True)
+                w.cell_weights = w.weight.img
+            nf, nc = int(w.grid.num_faces), int(w.grid.num_cells)
+            x = np.array([ctx.rng.randint(-12, 12) / 4.0 for _ in range(nf + nc + 1)])
+            stub_dist = call(w.l1_dissipation, x[:nf])
+            if isinstance(stub_dist, Raised):
+                continue
+            w._solve = lambda md, _x=x, _dd=stub_dist: (_dd, _x.copy(), {"converged": False, "number_iterations": 0, "convergence_history": {}})
+            out = call(w, i1, i2)
+            if l1 == "RAVIART_THOMAS":
+                pts, wq = d.quadrature.gauss_reference_cell(dim, "max")
+            elif l1 == "CONSTANT_SUBCELL_PROJECTION":
+                pts, wq = d.quadrature.reference_cell_corners(dim)
+            else:
+                pts, wq = d.quadrature.gauss_reference_cell(dim, 0)
+            pts = np.asarray(pts, dtype=float).reshape(len(wq), dim)
+            cw = np.ravel(w.cell_weights, "F")
+            line = (f"aux {dim} " + " ".join(map(str, shape)) + f" {dim} " + " ".join(fmt(v) for v in cfg.voxel) + f" {nc} " + " ".join(fmt(v) for v in cw)
+                    + f" {len(wq)} " + " ".join(fmt(v) for v in wq) + f" {pts.size} " + " ".join(fmt(v) for v in pts.ravel())
+                    + f" {len(x)} " + " ".join(fmt(v) for v in x))
+            lines.append(" ".join(line.split()))
+            cases.append((cfg, w, x, out, np.asarray(wq, dtype=float), stub_dist))
+    got = ctx.model(lines)
+    bad = 0
+    for (cfg, w, x, out, wq, stub_dist), line, resp in zip(cases, lines, got):
+        ctx.count(("aux", line[:200]), nontrivial=int(np.prod(cfg.shape)) > 1)
+        shape, dim = tuple(cfg.shape), len(cfg.shape)
+        rp = {"kind": "aux", "cfg": dict(cfg), "x": x.tolist()}
+        tagc = f"{cfg.method} {shape} {cfg.l1}"
+        if isinstance(out, Raised) or not (isinstance(out, tuple) and len(out) == 2):
+            ctx.fail(f"C04:{cfg.method}.__call__:aux-raises", f"__call__ raises {out!r} while assembling its outputs ({tagc})", rp)
+            continue
+        parts = [p.split() for p in resp.split("|")]
+        if len(parts) != 4:
+            bad += 1
+            ctx.mark("TIE-BROKEN", {"correspondence": "aux outputs", "request": line[:300], "model": resp[:200]})
+            continue
+        info = out[1]
+        cells = [np.unravel_index(c, shape, order="F") for c in range(int(np.prod(shape)))]
+        impl_flux = [fmt(info["flux"][idx][a]) for idx in cells for a in range(dim)]
+        impl_wflux = [fmt(info["weighted_flux"][idx][a]) for idx in cells for a in range(dim)]
+        impl_press = [fmt(v) for v in np.ravel(info["pressure"], "F")]
+        for name, mine, theirs in (("flux", parts[0], impl_flux), ("weighted_flux", parts[1], impl_wflux), ("pressure", parts[2], impl_press)):
+            if mine != theirs:
+                bad += 1
+                ctx.fail(f"C04:{cfg.method}.__call__:aux({name})!=model",
+                         f"info['{name}'] is not the model's function of the flat solution returned by _solve ({tagc})", rp)
+        sq = np.array([float(Fraction(v)) for v in parts[3]]).reshape(len(cells), len(wq)) if parts[3] else np.zeros((len(cells), len(wq)))
+        td_model = (np.sqrt(sq) * wq[None, :]).sum(axis=1)
+        td_impl = np.array([float(info["transport_density"][idx]) for idx in cells])
+        scale = max(float(np.abs(td_model).max()) if td_model.size else 0.0, 1e-300)
+        if td_impl.shape != td_model.shape or not np.all(np.abs(td_impl - td_model) <= 64 * EPS * len(wq) * scale):
+            bad += 1
+            ctx.fail(f"C04:{cfg.method}.__call__:aux(transport_density)!=model",
+                     f"info['transport_density'] differs from sum_q w_q |weighted cell flux at q| of the returned flux by "
+                     f"{float(np.abs(td_impl - td_model).max()) if td_impl.shape == td_model.shape else 'shape'} ({tagc})", rp)
+        vol = float(np.prod(cfg.voxel))
+        dist_model = float(vol * td_model.sum())
+        if not (out[0] == stub_dist and abs(float(out[0]) - dist_model) <= 64 * EPS * len(cells) * len(wq) * max(abs(dist_model), 1e-300)):
+            bad += 1
+            ctx.fail(f"C04:{cfg.method}.__call__:aux(distance)!=model",
+                     f"returned distance {out[0]!r} is not vol * sum(transport density) = {dist_model!r} of the returned flux ({tagc})", rp)
+    ctx.cov.setdefault("correspondence", {})["__call__ outputs vs WAux.callOut (stubbed _solve, dyadic flat solution)"] = {"cases": len(lines), "disagreements": bad}
+
+
 def run(ctx):
     import darsia as d
 
@@ -674,6 +771,7 @@ def run(ctx):
     ctx.cov["solver_runs"] = 0
     ctx.cov["events_seen"] = {}
     loop_model_selfcheck(ctx, codes)
+    aux_correspondence(ctx, d)
     lines, impl = [], []
     cfgs = configs(ctx)
     for cfg in cfgs:
@@ -699,6 +797,9 @@ def replay(data):
     rp = data.get("replay", {})
     print("signature:", data.get("signature"))
     print("recorded :", data.get("what"))
+    if rp.get("kind") == "aux":
+        print("replay   : re-run `./check C04 quick` (the aux correspondence needs the model driver); configuration:", rp.get("cfg"))
+        return 0
     if rp.get("kind") != "run":
         print("replay   :", rp)
         return 0
